@@ -149,7 +149,15 @@ func builtinOn(g *term.Gen, op string, coll *term.Term, depth int) *term.Term {
 func c06Env(r *runner.Rng) *EnvPair {
 	pair := NewEnvPair(3, r.U64())
 	vals := []int{0, 1, 2, 3, 5, 8, 13, 21, 40, -1, -3, -10, 100}
+	// one environment in 16 takes every bound from the edges of the int
+	// domain, so that pairs whose distance overflows (to 0, to -1, to
+	// MinInt64) occur among the run-time ranges
+	edges := []int{9223372036854775807, -9223372036854775808, 9223372036854775806, -9223372036854775807, 0, -1, 1, 4611686018427387904, -4611686018427387904}
+	extreme := r.Chance(1, 16)
 	pick := func() int {
+		if extreme {
+			return edges[r.Intn(len(edges))]
+		}
 		if r.Chance(1, 40) {
 			return []int{9223372036854775807, -9223372036854775808, 9223372036854775806, 4611686018427387904, 1 << 31}[r.Intn(5)]
 		}
@@ -166,7 +174,7 @@ func init() {
 	runner.Register(&runner.Check{
 		ID:    "C06",
 		Level: "exploration",
-		Rule: "case = (allocating expression, environment choosing the bounds, budget B); expressions combine 1-12 allocation sites (run-time ranges incl. empty and descending, array and map literals, map/filter results, allocations inside loop bodies), compiled with Optimize(false) for the black-box oracle and with both settings for the hook oracle; budgets {1,2,3,A-1,A,A+1,2A,default} around the reference allocation total A; " +
+		Rule: "case = (allocating expression, environment choosing the bounds, budget B); expressions combine 1-12 allocation sites (run-time ranges incl. empty and descending, array and map literals, map/filter results, allocations inside loop bodies), compiled with Optimize(false) for the black-box oracle and with both settings for the hook oracle, run on a fresh VM or on one VM value reused for the whole worker; budgets {1,2,3,A-1,A,A+1,2A,default} around the reference allocation total A; " +
 			"distinct = distinct (source, environment, budget) triples whose reference evaluation creates at least one element",
 		Assumptions: []string{
 			"the reference evaluator counts created elements as the property states (ranges max(0,b-a+1), literals their length, filter its matches, map its input length)",
@@ -196,6 +204,8 @@ func init() {
 		},
 	})
 }
+
+var c06VM = &vm.VM{}
 
 func c06Case(c *runner.Ctx, idx uint64) {
 	r := c.R
@@ -227,13 +237,20 @@ func c06Case(c *runner.Ctx, idx uint64) {
 	// unbounded reference run gives A
 	pair.Reset(0)
 	ru := ref.Eval(t, pair.Ref, 0)
-	if ru.Unspec != "" || t.HasUnspec() {
+	huge := strings.HasPrefix(ru.Unspec, "range too large")
+	if (ru.Unspec != "" && !huge) || t.HasUnspec() {
 		c.Count("unspecified", 1)
 		return
 	}
 	A := ru.Alloc
 	budgets := []int64{1, 2, 3, A - 1, A, A + 1, 2 * A, defaultBudget}
-	if ru.Fail != nil {
+	if huge {
+		// more elements than the reference is willing to build: every budget
+		// up to the default one has to stop the run
+		A = 1 << 40
+		budgets = []int64{1, 3, 1000, defaultBudget}
+		c.Count("huge_range_cases", 1)
+	} else if ru.Fail != nil {
 		// the unbounded evaluation fails for another reason: the budget still
 		// has to agree with the reference on every prefix
 		budgets = []int64{1, 3, A, A + 1, defaultBudget}
@@ -261,8 +278,13 @@ func c06Case(c *runner.Ctx, idx uint64) {
 			c.Count("unspecified_or_tainted", 1)
 			continue
 		}
-		// black box + hook, unoptimized
+		// black box + hook, unoptimized; every other case on a VM value that
+		// lives as long as the worker (the budget is per run, not per VM)
 		m := &vm.VM{}
+		if idx%2 == 1 {
+			m = c06VM
+			c.Count("runs_on_long_lived_vm", 1)
+		}
 		tr := mon.NewTrace(pNo, nil)
 		out, err, pan := mon.RunTraced(m, pNo, *pair.Real, tr)
 		c.Eval(1)
